@@ -121,6 +121,11 @@ def check(run, M, tier):
     run.rule("Q2", "statements after the loop (rewinder, total phase accrual) are unitary; phase factors are exp(i * real)")
     run.rule("Q3", "initial state (a, b) = (ones, zeros)")
     run.rule("Q4", "ab2rf peel step is unitary")
+    run.rule("Q6", "no simulator / SLR function is memoised or keeps work buffers in module-level state (b2a's zero-padded buffer must be fresh for every design)")
+    from ..common import check_no_memoisation
+    check_no_memoisation(run, M, "Q6", ["sigpy.mri.rf.sim", "sigpy.mri.rf.slr", "sigpy.mri.rf.optcont"],
+                         "a cached work buffer keeps the coefficients of an earlier, longer design in its padding, and a cached result array is shared between callers: "
+                         "the designed pulse then depends on the call history, and simulating it no longer reproduces |B|")
     run.assume("generic samples: phi != 0 (the isinf masks of abrm_ptx) and eps = 0")
     n_sites = 0
     for q, cfg in SIMS.items():
